@@ -269,6 +269,12 @@ mod verif_kani_parsed {
     // const OUT_OF_RANGE = ParseError(OutOfRange).  A record that starts with a unique word cannot coincide with any constant.)
     struct Rec {
         magic: u64,
+        cso_calls: u8,
+        cso_args: [Option<(NaiveDateTime, i32)>; 2],
+        cso_res: [Option<NaiveDateTime>; 2],
+        ts_calls: u8,
+        ts_arg: Option<NaiveDateTime>,
+        ts_res: i64,
         date_calls: u8,
         time_calls: u8,
         date_res: [Option<ParseResult<NaiveDate>>; 2],
@@ -289,7 +295,7 @@ mod verif_kani_parsed {
         z_loc_arg: Option<NaiveDateTime>,
         z_loc_res: MappedLocalTime<i32>,
     }
-    static mut REC: Rec = Rec { magic: 0xC0DE_5EED_D15C_0001, date_calls: 0, time_calls: 0, date_res: [None, None], time_res: [None, None], ft_calls: 0, ft_args: (0, 0), ft_res: None, cs_calls: 0, cs_args: None, cs_res: None, ndt_calls: 0, ndt_arg: 0, ndt_res: None, z_utc_calls: 0, z_utc_arg: None, z_utc_res: 0, z_loc_calls: 0, z_loc_arg: None, z_loc_res: MappedLocalTime::None };
+    static mut REC: Rec = Rec { magic: 0xC0DE_5EED_D15C_0001, cso_calls: 0, cso_args: [None, None], cso_res: [None, None], ts_calls: 0, ts_arg: None, ts_res: 0, date_calls: 0, time_calls: 0, date_res: [None, None], time_res: [None, None], ft_calls: 0, ft_args: (0, 0), ft_res: None, cs_calls: 0, cs_args: None, cs_res: None, ndt_calls: 0, ndt_arg: 0, ndt_res: None, z_utc_calls: 0, z_utc_arg: None, z_utc_res: 0, z_loc_calls: 0, z_loc_arg: None, z_loc_res: MappedLocalTime::None };
     fn any_err() -> ParseError { let k: u8 = kani::any(); match k { 0 => OUT_OF_RANGE, 1 => IMPOSSIBLE, _ => NOT_ENOUGH } }
     fn any_time(frac: u32) -> NaiveTime { let t = NaiveTime::from_num_seconds_from_midnight_opt(kani::any(), frac); kani::assume(t.is_some()); t.unwrap() }
     fn stub_to_naive_date(p: &Parsed) -> ParseResult<NaiveDate> {
@@ -323,20 +329,20 @@ mod verif_kani_parsed {
         unsafe { REC.ft_calls += 1; REC.ft_args = (secs, nsecs); REC.ft_res = r; }
         r.map(|x| x.and_utc())
     }
+    //   DateTime::timestamp: the Unix second count of a valid date-time, which lies in [-8_334_601_228_800, 8_210_266_876_799]   (Verus unit datetime)
+    fn stub_timestamp<Tz: TimeZone>(x: &crate::DateTime<Tz>) -> i64 {
+        let v: i64 = kani::any();
+        kani::assume(v >= -8_334_601_228_800 && v <= 8_210_266_876_799);
+        unsafe { REC.ts_calls += 1; REC.ts_arg = Some(x.naive_utc()); REC.ts_res = v; }
+        v
+    }
     fn stub_checked_sub_signed(x: NaiveDateTime, rhs: TimeDelta) -> Option<NaiveDateTime> {
         let r = if kani::any() { Some(NaiveDateTime::new(any_valid_date(), any_time(x.nanosecond()))) } else { None };
         unsafe { REC.cs_calls += 1; REC.cs_args = Some((x, rhs)); REC.cs_res = r; }
         r
     }
 
-    // fns: Parsed::to_naive_datetime_with_offset
-    // assumes: kani:vk_parsed_date_agrees, kani:vk_parsed_time, DateTime::from_timestamp, NaiveDateTime::checked_sub_signed
-    #[kani::proof]
-    #[kani::stub(Parsed::to_naive_date, stub_to_naive_date)]
-    #[kani::stub(Parsed::to_naive_time, stub_to_naive_time)]
-    #[kani::stub(crate::DateTime::<crate::Utc>::from_timestamp, stub_from_timestamp)]
-    #[kani::stub(NaiveDateTime::checked_sub_signed, stub_checked_sub_signed)]
-    fn vk_parsed_ndt_with_offset() {
+    fn ndt_setup() -> (Parsed, i32, ParseResult<NaiveDateTime>, ParseResult<NaiveDate>, ParseResult<NaiveTime>) {
         let mut p = Parsed::new();
         p.year = any_opt_i32(); p.ordinal = any_opt_u32(); p.month = any_opt_u32(); p.day = any_opt_u32();
         p.hour_div_12 = any_opt_u32(); p.hour_mod_12 = any_opt_u32(); p.minute = any_opt_u32(); p.second = any_opt_u32(); p.nanosecond = any_opt_u32();
@@ -344,17 +350,45 @@ mod verif_kani_parsed {
         let off: i32 = kani::any();
         let r = p.to_naive_datetime_with_offset(off);          // returns for every input: no panic, no overflow
         let (d1, t1) = unsafe { (REC.date_res[0].unwrap(), REC.time_res[0].unwrap()) };
-        kani::cover!(r.is_ok() && d1.is_err()); kani::cover!(r.is_ok() && p.second == Some(60) && unsafe { REC.cs_calls } == 1);
-        kani::cover!(kind(&r) == Some(ParseErrorKind::Impossible) && d1.is_ok() && t1.is_ok());
-        match (d1, t1) {
-            (Ok(d), Ok(t)) => {
+        (p, off, r, d1, t1)
+    }
+
+    // the two harnesses split the outcomes of the first date / time resolution (both succeed | at least one fails); together they cover every input
+    // fns: Parsed::to_naive_datetime_with_offset (date and time both resolve)
+    // assumes: kani:vk_parsed_date_agrees, kani:vk_parsed_time, DateTime::timestamp
+    #[kani::proof]
+    #[kani::stub(Parsed::to_naive_date, stub_to_naive_date)]
+    #[kani::stub(Parsed::to_naive_time, stub_to_naive_time)]
+    #[kani::stub(crate::DateTime::<crate::Utc>::from_timestamp, stub_from_timestamp)]
+    #[kani::stub(NaiveDateTime::checked_sub_signed, stub_checked_sub_signed)]
+    #[kani::stub(crate::DateTime::timestamp, stub_timestamp)]
+    fn vk_parsed_ndt_with_offset_direct() {
+        let (p, off, r, d1, t1) = ndt_setup();
+        kani::assume(d1.is_ok() && t1.is_ok());
+        kani::cover!(kind(&r) == Some(ParseErrorKind::Impossible)); kani::cover!(r.is_ok() && p.timestamp.is_some());
+        let (d, t) = (d1.unwrap(), t1.unwrap());
+
                 // both parts resolve: exactly that date-time, unless a supplied timestamp contradicts it
                 let dt = d.and_time(t);
-                let ts = dt.and_utc().timestamp() - off as i64;
+                let (ts_calls, ts_arg, ts_res) = unsafe { (REC.ts_calls, REC.ts_arg, REC.ts_res) };
+                assert!(ts_calls == 1 && ts_arg == Some(dt), "the cross-check uses the Unix second count of exactly that date-time");
+                let ts = ts_res - off as i64;
                 let ts_ok = match p.timestamp { None => true, Some(g) => g == ts || (t.nanosecond() >= 1_000_000_000 && g == ts + 1) };
                 assert!(r == if ts_ok { Ok(dt) } else { Err(IMPOSSIBLE) }, "date and time resolve: that value, or Impossible when the timestamp disagrees");
-            }
-            _ => match p.timestamp {
+    }
+
+    // fns: Parsed::to_naive_datetime_with_offset (resolution from the timestamp, error precedence)
+    // assumes: kani:vk_parsed_date_agrees, kani:vk_parsed_time, DateTime::from_timestamp, NaiveDateTime::checked_sub_signed
+    #[kani::proof]
+    #[kani::stub(Parsed::to_naive_date, stub_to_naive_date)]
+    #[kani::stub(Parsed::to_naive_time, stub_to_naive_time)]
+    #[kani::stub(crate::DateTime::<crate::Utc>::from_timestamp, stub_from_timestamp)]
+    #[kani::stub(NaiveDateTime::checked_sub_signed, stub_checked_sub_signed)]
+    fn vk_parsed_ndt_with_offset_from_timestamp() {
+        let (p, off, r, d1, t1) = ndt_setup();
+        kani::assume(!(d1.is_ok() && t1.is_ok()));
+        kani::cover!(r.is_ok()); kani::cover!(r.is_ok() && p.second == Some(60) && unsafe { REC.cs_calls } == 1);
+        match p.timestamp {
                 None => assert!(r == Err(match d1 { Err(e) => e, Ok(_) => t1.unwrap_err() }), "without a timestamp the first error is reported"),
                 Some(g) => {
                     let oor = kind(&d1) == Some(ParseErrorKind::OutOfRange) || kind(&t1) == Some(ParseErrorKind::OutOfRange);
@@ -390,8 +424,7 @@ mod verif_kani_parsed {
                         }
                     }
                 }
-            },
-        }
+            }
     }
 
     // ---- Parsed::to_datetime over the contract of to_naive_datetime_with_offset ---------------------------------------------------
@@ -402,7 +435,7 @@ mod verif_kani_parsed {
     }
 
     // fns: Parsed::to_datetime
-    // assumes: kani:vk_parsed_ndt_with_offset
+    // assumes: kani:vk_parsed_ndt_with_offset_direct, kani:vk_parsed_ndt_with_offset_from_timestamp
     #[kani::proof]
     #[kani::stub(Parsed::to_naive_datetime_with_offset, stub_ndt_with_offset)]
     fn vk_parsed_to_datetime() {
@@ -466,11 +499,18 @@ mod verif_kani_parsed {
         r.map(|x| x.and_utc())
     }
 
+    //   NaiveDateTime::checked_sub_offset: None, or a well-formed date-time (the instant wall - offset)        (Verus unit datetime: `shifted`)
+    fn stub_checked_sub_offset(x: NaiveDateTime, rhs: FixedOffset) -> Option<NaiveDateTime> {
+        let r = if kani::any() { Some(NaiveDateTime::new(any_valid_date(), any_time(x.nanosecond()))) } else { None };
+        unsafe { let i = REC.cso_calls as usize; if i < 2 { REC.cso_args[i] = Some((x, rhs.local_minus_utc())); REC.cso_res[i] = r; } REC.cso_calls += 1; }
+        r
+    }
     // fns: Parsed::to_datetime_with_timezone (generic in the zone), TimeZone::from_local_datetime (provided method)
-    // assumes: kani:vk_parsed_ndt_with_offset, DateTime::from_timestamp
+    // assumes: kani:vk_parsed_ndt_with_offset_direct, kani:vk_parsed_ndt_with_offset_from_timestamp, DateTime::from_timestamp, NaiveDateTime::checked_sub_offset
     #[kani::proof]
     #[kani::stub(Parsed::to_naive_datetime_with_offset, stub_ndt_with_offset)]
     #[kani::stub(crate::DateTime::<crate::Utc>::from_timestamp, stub_from_timestamp_any)]
+    #[kani::stub(NaiveDateTime::checked_sub_offset, stub_checked_sub_offset)]
     fn vk_parsed_to_datetime_with_timezone() {
         let mut p = Parsed::new();
         p.offset = any_opt_i32();
@@ -499,22 +539,28 @@ mod verif_kani_parsed {
         assert!(zl_calls == 1 && zl_arg == Some(local), "the zone maps that local value");
         // a candidate offset is acceptable iff it equals the supplied offset field and (with a timestamp) the offset at that instant
         let ok = |o: i32| -> bool { (!with_ts || o == guessed) && p.offset.map_or(true, |f| f == o) };
-        let inst = |o: i32| -> Option<NaiveDateTime> { local.checked_sub_offset(FixedOffset::east_opt(o).unwrap()) };
-        let is = |r: &ParseResult<crate::DateTime<AnyZone>>, o: i32| -> bool { match r { Ok(dt) => dt.offset().local_minus_utc() == o && Some(dt.naive_utc()) == inst(o), Err(_) => false } };
+        // instants of the candidates: the recorded results of checked_sub_offset(local, candidate offset), in the zone's order
+        let (cso_calls, cso_args, cso_res) = unsafe { (REC.cso_calls, REC.cso_args, REC.cso_res) };
+        match zl_res {
+            MappedLocalTime::None => assert!(cso_calls == 0, "nothing to convert"),
+            MappedLocalTime::Single(o) => assert!(cso_calls == 1 && cso_args[0] == Some((local, o)), "instant = local value - candidate offset"),
+            MappedLocalTime::Ambiguous(a, b) => assert!(cso_calls == 2 && cso_args[0] == Some((local, a)) && cso_args[1] == Some((local, b)), "instants = local value - each candidate offset"),
+        }
+        let is = |r: &ParseResult<crate::DateTime<AnyZone>>, o: i32, k: usize| -> bool { match r { Ok(dt) => dt.offset().local_minus_utc() == o && Some(dt.naive_utc()) == cso_res[k], Err(_) => false } };
         match zl_res {
             MappedLocalTime::None => assert!(r == Err(IMPOSSIBLE), "no such local time in the zone"),
             MappedLocalTime::Single(o) => {
-                if inst(o).is_none() { assert!(r == Err(IMPOSSIBLE), "instant out of range"); }
-                else if ok(o) { assert!(is(&r, o), "the single candidate, at the zone's offset"); }
+                if cso_res[0].is_none() { assert!(r == Err(IMPOSSIBLE), "instant out of range"); }
+                else if ok(o) { assert!(is(&r, o, 0), "the single candidate, at the zone's offset"); }
                 else { assert!(r == Err(IMPOSSIBLE), "a candidate contradicting the offset field or the timestamp is refused"); }
             }
             MappedLocalTime::Ambiguous(a, b) => {
-                if inst(a).is_none() || inst(b).is_none() { assert!(r == Err(IMPOSSIBLE), "instant out of range"); }
+                if cso_res[0].is_none() || cso_res[1].is_none() { assert!(r == Err(IMPOSSIBLE), "instant out of range"); }
                 else {
                     match (ok(a), ok(b)) {
                         (false, false) => assert!(r == Err(IMPOSSIBLE), "neither candidate agrees"),
-                        (true, false) => assert!(is(&r, a), "the candidate that agrees with the supplied fields"),
-                        (false, true) => assert!(is(&r, b), "the candidate that agrees with the supplied fields"),
+                        (true, false) => assert!(is(&r, a, 0), "the candidate that agrees with the supplied fields"),
+                        (false, true) => assert!(is(&r, b, 1), "the candidate that agrees with the supplied fields"),
                         (true, true) => assert!(r == Err(NOT_ENOUGH), "both agree: not enough to decide"),
                     }
                 }
@@ -523,10 +569,6 @@ mod verif_kani_parsed {
         // the property itself: a successful result never contradicts the offset field
         if let (Ok(dt), Some(f)) = (&r, p.offset) { assert!(dt.offset().local_minus_utc() == f, "offset field agrees"); }
     }
-
-    fn stub_ft_none(_secs: i64, _nsecs: u32) -> Option<crate::DateTime<crate::Utc>> { None }
-    fn stub_ft_rec(secs: i64, nsecs: u32) -> Option<crate::DateTime<crate::Utc>> { unsafe { REC.ft_calls += 1; REC.ft_args = (secs, nsecs); } None }
-    fn stub_ft_any0(_secs: i64, _nsecs: u32) -> Option<crate::DateTime<crate::Utc>> { if kani::any() { Some(NaiveDateTime::new(any_valid_date(), any_time(0)).and_utc()) } else { None } }
 
     // guard for the recording device itself: writing every recorder field leaves the crate's error constants intact
     // fns: (harness infrastructure)
